@@ -134,6 +134,8 @@ func exprString(e ast.Expr) string {
 		return x.Op.String() + exprString(x.X)
 	case *ast.StarExpr:
 		return "*" + exprString(x.X)
+	case *ast.IndexExpr:
+		return exprString(x.X) + "[" + exprString(x.Index) + "]"
 	}
 	return fmt.Sprintf("<%T>", e)
 }
